@@ -4,9 +4,10 @@
    theorems are about - for ALL rules, cache states and values.  The cell lookup
    (ConcurrencyCounter.AddIfAbsent(arg, &0)), the atomic load through the returned pointer and the
    specific-item lookup enter as parameters and are instantiated with the model's own lookups. *)
-From Coq Require Import ZArith Bool Lia.
+From Coq Require Import ZArith Bool Lia List.
 From SG Require Import Base.Prelude Base.GoInt Model.LRU Model.Hotspot Model.HotspotStep.
 From Gen Require Import Leaf_gen.
+Import ListNotations.
 #[local] Open Scope Z_scope.
 
 (* result of PerformChecking for a concurrency rule: pass (0,0) / blocked with the reported
@@ -35,5 +36,55 @@ Proof.
   cbn [fst]. destruct (_ <=? _); reflexivity.
 Qed.
 
+(* ---- ConcurrencyStatSlot.OnEntryPassed / OnCompleted ------------------------------------------
+   One iteration of `for _, tc := range tcs`, for an arbitrary controller: the recorded operations
+   (ConcurrencyCounter.Get(arg), atomic.AddInt64(cell, +1 / -1)) replayed on the model's metric give
+   [conc_bump 1] / [conc_bump (-1)] for ALL rules, requests and cache states; the iteration never
+   leaves the loop early. *)
+Definition argz (n : nat) (l : list leaf_arg) : Z :=
+  match nth_error l n with Some (LZ z) => z | _ => 0 end.
+
+(* [k] = the value tc.ExtractArgs(ctx) returned, [cur] = the content of its cell *)
+Definition act_stat (k cur : Z) (m : metric) (a : leaf_act) : metric :=
+  let '(tag, args) := a in
+  match tag with
+  | 3 => op_conc_get k m
+  | 6 => op_conc_add k cur (argz 0 args) m
+  | _ => m
+  end.
+
+Definition stat_view (step : bool -> bool -> bool -> bool -> Z -> leaf_flow unit unit * list leaf_act)
+  (r : rule) (m : metric) (q : req) (debug : bool) :=
+  let ko := extract r q in
+  let cur := match ko with Some k => lru_find k (m_conc m) | None => None end in
+  step (negb (opt_some ko)) (opt_some cur) false debug (r_metric r).
+
+Definition stat_replay (r : rule) (m : metric) (q : req) (res : leaf_flow unit unit * list leaf_act) : metric :=
+  let k := opt_z (extract r q) in
+  fold_left (act_stat k (opt_z (lru_find k (m_conc m)))) (snd res) m.
+
+Ltac stat_tac f :=
+  intros; unfold stat_view, stat_replay, conc_bump, f, lru_get;
+  match goal with m : metric |- _ => destruct m end; cbn [m_conc];
+  destruct (r_metric _ =? 0); cbn [negb]; [|split; reflexivity];
+  destruct (extract _ _); cbn [opt_some opt_z negb]; [|split; reflexivity];
+  match goal with |- context [lru_find ?k ?l] => let Ef := fresh "Ef" in destruct (lru_find k l) eqn:Ef end;
+  cbn [opt_some opt_z negb orb];
+  match goal with d : bool |- _ => destruct d end;
+  cbv [fst snd fold_left act_stat argz nth_error op_conc_get op_conc_add m_with_conc m_time m_tok m_conc lru_get];
+  repeat match goal with H : lru_find _ _ = _ |- _ => rewrite H; clear H end; split; reflexivity.
+
+Lemma hotspot_onEntryPassed_step_ok r m q (debug : bool) :
+  stat_replay r m q (stat_view hotspot_onEntryPassed_step r m q debug) = conc_bump 1 r m q
+  /\ fst (stat_view hotspot_onEntryPassed_step r m q debug) = LContinue tt.
+Proof. stat_tac hotspot_onEntryPassed_step. Qed.
+
+Lemma hotspot_onCompleted_step_ok r m q (debug : bool) :
+  stat_replay r m q (stat_view hotspot_onCompleted_step r m q debug) = conc_bump (-1) r m q
+  /\ fst (stat_view hotspot_onCompleted_step r m q debug) = LContinue tt.
+Proof. stat_tac hotspot_onCompleted_step. Qed.
+
 Print Assumptions hotspot_concurrency_check_ok.
 Print Assumptions hotspot_concurrency_check_state.
+Print Assumptions hotspot_onEntryPassed_step_ok.
+Print Assumptions hotspot_onCompleted_step_ok.
